@@ -223,13 +223,13 @@ def _chain_cases(args):
                         break
             # ---- the reported list is the per-sweep minimum of those
             if rec.micro and not getattr(rec, "micro_unobserved", False) and len(energies) != len(rec.micro):
-                V("C08:report:length", f"{len(energies)} reported energies for {len(rec.micro)} sweeps")
+                V("DRIFT:C08:report:length", f"{len(energies)} reported energies for {len(rec.micro)} sweeps")
             for isw, (e_rep, sweep) in enumerate(zip(energies, rec.micro)):
                 best = min(sweep)[0]
                 if not np.allclose(np.atleast_1d(e_rep), np.atleast_1d(best), rtol=0, atol=1e-12):
-                    V("C08:report:not-the-minimum", f"sweep {isw}: reported {e_rep}, lowest computed {best}")
+                    V("DRIFT:C08:report:not-the-minimum", f"sweep {isw}: reported {e_rep}, lowest computed {best}")
                 if (nroots == 1) != np.isscalar(e_rep) and not (nroots == 1 and np.ndim(e_rep) == 0):
-                    V("C08:report:shape", f"nroots={nroots} but the reported entry is {type(e_rep).__name__}")
+                    V("DRIFT:C08:report:shape", f"nroots={nroots} but the reported entry is {type(e_rep).__name__}")
             # ---- returned states
             states = [res] if nroots == 1 else list(res)
             if len(states) != nroots:
@@ -501,7 +501,7 @@ def _tree_cases(args):
                     out["viol"].append(("C08:bound:tree", f"two-site problem {i}: energy {e} below the exact value {exact[0]}", detail))
                     break
             if len(e_list) != len(procedure):
-                out["viol"].append(("C08:report:tree-length", f"{len(e_list)} energies for {len(procedure)} sweeps", detail))
+                out["viol"].append(("DRIFT:C08:report:tree-length", f"{len(e_list)} energies for {len(procedure)} sweeps", detail))
             v = trees.dense(t, order=list(u.basis)).reshape(-1)
             nv = float(np.linalg.norm(v))
             if abs(nv - 1) > 1e-7:
